@@ -17,6 +17,34 @@ CHECKS = {
         design="DESIGN.md §4 C03",
         note="Trusted: NumPy float64 arithmetic, vlib/refs.py GAE loop (validated by 6 mutants of rollout.py, all caught).",
     ),
+    "C04": dict(
+        technique="property-based testing over generated finite MDPs (Hypothesis) with a NumPy reference interpreter as oracle",
+        text="Generated MDP tables, time limits, table policies with counter state, start states and keys are run through the real "
+        "collect_rollout()/iteration() of PPO, A2C and REINFORCE (x64); every buffer row (observation, stored action, value, "
+        "log-prob, clipped execution, reward incl. truncation-only bootstrap, done, mask, policy state, post-done resets) and the "
+        "carried step state are re-derived by an interpreter of the tables. Class fractions (clip active, truncation-only, "
+        "termination-only, both on one step) are asserted so the generator cannot go vacuous.",
+        design="DESIGN.md §4 C04",
+        note="Trusted: vlib/mdp.py interpreter; the policy double's evaluate_action/value as 'the policy's own numbers'. 12 mutants of on_policy.step all caught.",
+    ),
+    "C05": dict(
+        technique="property-based testing over generated finite MDPs (Hypothesis) with a NumPy reference interpreter as oracle",
+        text="Generated MDP tables, time limits, behaviour policies (Q-table through lerax's epsilon-greedy; deterministic action table "
+        "with out-of-bounds entries) and (buffer_size, learning_starts, num_envs, num_steps) combos below/above per-env capacity "
+        "are run through the real reset() warm-up and iteration() of DQN and SAC; each newly stored slot of each per-env buffer "
+        "and the insertion counts are re-derived by the interpreter.",
+        design="DESIGN.md §4 C05",
+        note="Trusted: vlib/mdp.py interpreter; learning rate 0 keeps the behaviour policy fixed. 12 mutants of off_policy.py all caught.",
+    ),
+    "C06": dict(
+        technique="stateful (rule-based machine) property-based testing against a deque model; Hypothesis @given for joint sampling",
+        text="Hypothesis rule-based machine over add/sample histories with capacity 1..12 and pytree observation/action spaces; every "
+        "row encodes its insertion number in every field so field alignment, contents == most recent min(n,C) and sample validity "
+        "(stored, no duplicates, no unwritten slot) are decidable after every step; joint sampling over stacked per-env buffers "
+        "with unequal fill levels including empty and wrapped ones.",
+        design="DESIGN.md §4 C06",
+        note="Trusted: collections.deque(maxlen=C) as the model. 8 mutants of replay.py all caught.",
+    ),
 }
 
 PENDING_REASON = "check not built yet in this round (planned, see DESIGN.md §8); not claimed until it is quiet on the unchanged tree"
